@@ -84,8 +84,62 @@ fn gen_inv_branches(t: &mut Tape) -> Expr {
     e
 }
 
+/// invariant text spelled through *nested* invariant branches with separators inside the inner
+/// ones (`{a{b/c}}/`, `x/{a<b/:2>c}`, `<a{b/c}:2>/`): the folded text of an inner branch has
+/// several fragments, so joining it to what precedes it is where fragment order can go wrong
+fn gen_inv_nested(t: &mut Tape, depth: usize) -> Expr {
+    // every expression built here begins and ends with a non-separator
+    let mut e: Expr = Vec::new();
+    let n = 1 + t.below(3);
+    for i in 0..n {
+        if i > 0 && t.chance(110) {
+            e.push(Tok::Sep);
+        }
+        let k = if depth == 0 { 0 } else { t.below(5) };
+        match k {
+            0 => e.push(Tok::lit(t.pick(&["a", "b", "c", "ab", "é"]))),
+            1 | 2 => {
+                let inner = gen_inv_nested(t, depth - 1);
+                let mut bs = vec![inner.clone()];
+                if t.chance(60) {
+                    bs.push(inner);
+                }
+                e.push(Tok::Alt(bs));
+            },
+            3 => {
+                let mut inner = gen_inv_nested(t, depth - 1);
+                // `<b/:2>` — a body that ends with a separator needs a non-boundary neighbour
+                if t.chance(100) {
+                    inner.push(Tok::Sep);
+                    e.push(Tok::Rep { body: inner, lo: 2, hi: Some(2), spell: 1 });
+                    e.push(Tok::lit(t.pick(&["a", "c"])));
+                }
+                else {
+                    let k = 1 + t.below(2);
+                    e.push(Tok::Rep { body: inner, lo: k, hi: Some(k), spell: 1 });
+                }
+            },
+            _ => {
+                let inner = gen_inv_nested(t, depth - 1);
+                e.push(Tok::Alt(vec![inner]));
+            },
+        }
+    }
+    e
+}
+
 fn gen_prefix(t: &mut Tape) -> Expr {
     let li = |s: &str| Tok::Lit { text: s.into(), ci: true };
+    if t.chance(30) {
+        let mut e = gen_inv_nested(t, 2);
+        if t.chance(40) {
+            e.insert(0, Tok::Sep);
+        }
+        if t.chance(200) {
+            e.push(Tok::Sep);
+        }
+        return e;
+    }
     if t.chance(50) {
         return gen_inv_branches(t);
     }
@@ -186,7 +240,7 @@ impl Property for C08 {
         }
     }
     fn required_counters(&self) -> Vec<&'static str> {
-        vec!["built", "nonempty_prefix_with_postfix", "wholly_invariant", "rooted", "empty_prefix", "postfix_rebuilt", "prefix_via_branch"]
+        vec!["built", "nonempty_prefix_with_postfix", "wholly_invariant", "rooted", "empty_prefix", "postfix_rebuilt", "prefix_via_branch", "prefix_via_nested_separator_branch"]
     }
     fn decode(&self, t: &mut Tape) -> Case {
         let expr = if t.chance(60) {
@@ -318,6 +372,20 @@ impl Property for C08 {
             st.count("nonempty_prefix_with_postfix");
             if matches!(es.first(), Some(t) if t.is_branch()) {
                 st.count("prefix_via_branch");
+            }
+            fn holds_sep_branch(e: &Expr) -> bool {
+                e.iter().any(|t| match t {
+                    Tok::Alt(bs) => bs.iter().any(|b| b.contains(&Tok::Sep) || holds_sep_branch(b)),
+                    Tok::Rep { body, .. } => body.contains(&Tok::Sep) || holds_sep_branch(body),
+                    _ => false,
+                })
+            }
+            if es.iter().take(3).any(|t| match t {
+                Tok::Alt(bs) => bs.iter().any(|b| b.len() > 1 && holds_sep_branch(b)),
+                Tok::Rep { body, .. } => body.len() > 1 && holds_sep_branch(body),
+                _ => false,
+            }) {
+                st.count("prefix_via_nested_separator_branch");
             }
         }
         // (6)
